@@ -1516,12 +1516,37 @@ impl ArrayData {
                 let child = &self.child_data[0];
                 self.validate_offsets_full::<i64>(child.len)
             }
-            DataType::Union(_, _) => {
-                // Validate Union Array as part of implementing new Union semantics
-                // See comments in `ArrayData::validate()`
-                // https://github.com/apache/arrow-rs/issues/85
-                //
-                // TODO file follow on ticket for full union validation
+            DataType::Union(fields, mode) => {
+                // every slot must select a declared field; the offsets of a dense
+                // union must address a slot of the selected child
+                let mut child_lens = [None; 128];
+                for (i, (type_id, _)) in fields.iter().enumerate() {
+                    child_lens[type_id as usize] = Some(self.child_data[i].len);
+                }
+                let type_ids = self.typed_buffer::<i8>(0, self.len)?;
+                let offsets = match mode {
+                    UnionMode::Dense => Some(self.typed_buffer::<i32>(1, self.len)?),
+                    UnionMode::Sparse => None,
+                };
+                for (i, type_id) in type_ids.iter().enumerate() {
+                    let child_len = usize::try_from(*type_id)
+                        .ok()
+                        .and_then(|id| child_lens[id])
+                        .ok_or_else(|| {
+                            ArrowError::InvalidArgumentError(format!(
+                                "Type id {type_id} at position {i} does not match any field of {}",
+                                self.data_type
+                            ))
+                        })?;
+                    if let Some(offsets) = offsets {
+                        let offset = offsets[i];
+                        if offset < 0 || offset as usize >= child_len {
+                            return Err(ArrowError::InvalidArgumentError(format!(
+                                "Offset {offset} at position {i} is out of bounds for the child array of type id {type_id} with length {child_len}"
+                            )));
+                        }
+                    }
+                }
                 Ok(())
             }
             DataType::Dictionary(key_type, _value_type) => {
